@@ -188,11 +188,14 @@ def representable_value(fam, x):
 
 def bounds(tier):
     return ('quick: cover families N=4 @2/2 for all four kinds with the full argument alphabet; '
-            'other families N=3; thorough: all families N=5 @2/2 and N=4 @3/2')
+            'other families N=3; deep growth + thinning lock-step @2/3, 3/2 and wide nodes @2/8, 8/2 for II OO fs; '
+            'module-level functions (union ... multiunion, weighted forms) in lock-step over all subset pairs '
+            'N=4 (cover) / N=3 x 6 x 6 operand forms; thorough: all families N=5 @2/2 and N=4 @3/2')
 
 
 def required_guards(tier):
-    return ['height>=3', 'weird_reads', 'weird_writes', 'weird_values', 'pickles_compared']
+    return ['height>=3', 'weird_reads', 'weird_writes', 'weird_values', 'pickles_compared',
+            'union', 'weightedIntersection', 'multiunion']
 
 
 def configs(tier):
@@ -227,12 +230,21 @@ def jobs(tier):
         for kind in F.TREE_KINDS:
             if tier == 'quick':
                 specs = [((2, 3), 11, 'asc'), ((3, 2), 11, 'asc'), ((2, 3), 10, 'desc'), ((3, 2), 10, 'mid')]
+                # wide nodes: 9 children under one node / 8 keys in one leaf
+                specs += [((2, 8), 10, 'asc' if kind == 'BTree' else 'desc'),
+                          ((8, 2), 11, 'mid' if kind == 'BTree' else 'asc')]
             else:
                 specs = [(sz, 12, o) for sz in ((2, 3), (3, 2), (2, 4), (3, 4)) for o in ('asc', 'desc', 'mid')]
                 specs += [((4, 2), 14, 'asc'), ((4, 3), 14, 'asc')]
+                specs += [((2, 8), 11, o) for o in ('asc', 'desc')] + [((8, 2), 12, o) for o in ('asc', 'mid')]
+                specs += [((6, 6), 13, 'mid')]
             for sz, n, order in specs:
                 js.append({'fn': 'deep_job', 'weight': 40, 'group': 'deep/' + kind,
                            'args': dict(fam=fam, kind=kind, sizes=sz, n=n, order=order)})
+    # the module-level functions are public API too: lock-step over operand pairs
+    for fam in F.FAMILIES:
+        js.append({'fn': 'modfuncs_job', 'weight': 8, 'group': 'modfuncs',
+                   'args': dict(fam=fam, n=4 if (tier != 'quick' or fam in F.COVER) else 3)})
     return js
 
 
@@ -598,7 +610,132 @@ def expected_unusable(op, klass):
     return None             # del / pop / remove / discard ...: only C == Py
 
 
+MOD_FORMS = ['Set', 'TreeSet/thin', 'Bucket', 'BTree/thin', 'list', 'None']
+
+
+def modfuncs_job(fam, n):
+    """Lock-step over the module-level functions (union, intersection, difference, weightedUnion,
+    weightedIntersection, multiunion): for every ordered pair of key subsets, every pair of operand forms
+    and every weight pair of a small alphabet the C function (on C operands) and the Python function (on
+    Python operands) must agree on outcome class, result kind, items and weight.  Cases whose exact result
+    is not representable in the value type are skipped (C12 counts them; the property fixes no outcome)."""
+    import itertools
+    from ..report import Reporter
+    from . import c12
+    mod = F.module(fam)
+    keys, grid = F.universe(fam, n, 'centred')
+    F.set_sizes(fam, 2, 2)
+    rep = Reporter('C09')
+    guards = collections.Counter()
+    evaluations = distinct = 0
+    weighted = F.has_weighted(fam)
+    if weighted:
+        vals, ws, rng = c12.alphabets(fam)
+        wpairs = [(), (ws[3],), (ws[1], ws[2]), (ws[2], ws[3]), (ws[3], ws[2])]
+        if fam[1] == 'F':
+            wpairs.append((0.5, -1.75))
+    else:
+        vals = list(F.values(fam))
+    subsets = [tuple(k for k, c in zip(keys, combo) if c)
+               for combo in itertools.product((False, True), repeat=len(keys))]
+    base = dict(fam=fam, n=n, modfuncs=True)
+
+    def make(impl, form, subset):
+        if form == 'list':
+            return list(reversed(subset))
+        return c12.make(fam, impl, form, subset, keys, vals)
+
+    def desc(r):
+        if isinstance(r, tuple) and len(r) == 2 and not isinstance(r[0], tuple):
+            return ('weighted', r[0], desc(r[1]))
+        if r is None:
+            return ('None',)
+        tn = type(r).__name__
+        tn = tn[:-2] if tn.endswith('Py') else tn
+        if hasattr(r, 'items') and tn[len(fam):] in ('Bucket', 'BTree'):
+            return (tn, list(r.items()))
+        return (tn, list(r))
+
+    def both(name, args_of):
+        nonlocal evaluations
+        out = []
+        for impl, sfx in (('c', ''), ('py', 'Py')):
+            fn = getattr(mod, name + sfx)
+            try:
+                out.append(('ok', desc(fn(*args_of(impl)))))
+            except Exception as e:      # noqa
+                out.append(('exc', type(e).__name__))
+        evaluations += 2
+        guards[name] += 1
+        return out
+
+    def in_range(d):
+        # weighted results: skip when a value left the value type (C wraps / rounds, Python may not)
+        if d[0] != 'ok' or d[1][0] != 'weighted':
+            return True
+        body = d[1][2]
+        items = body[1] if len(body) > 1 else []
+        vs = [x[1] for x in items if isinstance(x, tuple)] + [d[1][1]]
+        if fam[1] == 'F':
+            import struct
+            return all(struct.unpack('f', struct.pack('f', v))[0] == v for v in vs if isinstance(v, float))
+        return all(rng[0] <= v <= rng[1] for v in vs if isinstance(v, int))
+
+    for A, B in itertools.product(subsets, repeat=2):
+        if rep.full:
+            break
+        for fa in MOD_FORMS:
+            for fb in MOD_FORMS:
+                slot.set(('C09m', fam, A, B, fa, fb))
+                if A and B:
+                    distinct += 1
+                case = dict(base, A=list(A), B=list(B), fa=fa, fb=fb)
+                calls = []
+                for name in ('union', 'intersection', 'difference'):
+                    if name == 'difference' and fa == 'list':
+                        continue
+                    calls.append((name, (), lambda impl: (make(impl, fa, A), make(impl, fb, B))))
+                if weighted and 'list' not in (fa, fb):
+                    for name in ('weightedUnion', 'weightedIntersection'):
+                        for wp in wpairs:
+                            calls.append((name, wp, lambda impl, wp=wp: (make(impl, fa, A), make(impl, fb, B)) + wp))
+                for name, wp, args_of in calls:
+                    rc, rp = both(name, args_of)
+                    if rc != rp:
+                        if not in_range(rp) or not in_range(rc):
+                            guards['skipped_unrepresentable'] += 1
+                            continue
+                        rep.add(dict(site=name, cls='modfunc', fa=fa.split('/')[0], fb=fb.split('/')[0],
+                                     c_out=rc[0], py_out=rp[0], fam=fam, weights=len(wp)),
+                                dict(case, fn=name, w=list(wp)),
+                                '%s(%s %r, %s %r, *%r): C %r, Python %r' % (name, fa, A, fb, B, wp, rc, rp))
+        if F.has_multiunion(fam) and len(A) + len(B) > 0:
+            for forms in (('Set', 'TreeSet/thin'), ('list', 'Bucket'), ('int', 'BTree/thin')):
+                def args_of(impl, forms=forms):
+                    ops = []
+                    for f, sub in zip(forms, (A, B)):
+                        if f == 'int':
+                            ops.extend(sub)
+                        else:
+                            ops.append(make(impl, f, sub))
+                    return (ops,)
+                rc, rp = both('multiunion', args_of)
+                if rc != rp:
+                    rep.add(dict(site='multiunion', cls='modfunc', fam=fam, c_out=rc[0], py_out=rp[0]),
+                            dict(base, A=list(A), B=list(B), fn='multiunion', forms=list(forms)),
+                            'multiunion(%r %r, %r %r): C %r, Python %r' % (forms[0], A, forms[1], B, rc, rp))
+    return dict(states=0, transitions=evaluations // 2, compared=evaluations // 2, evaluations=evaluations,
+                distinct=distinct, exhaustive=not rep.full, guards=dict(guards), outcomes={},
+                violations=rep.all(), sample=dict(base, A=list(subsets[-1]), B=list(subsets[1]),
+                                                  fa='Set', fb='BTree/thin', fn='union'))
+
+
 def replay(case):
+    if case.get('modfuncs'):
+        r = modfuncs_job(case['fam'], case['n'])
+        vs = [v for v in r['violations'] if all(v['case'].get(k) == case.get(k)
+                                                for k in ('A', 'B', 'fa', 'fb', 'fn', 'w', 'forms'))]
+        return dict(violations=vs)
     if case.get('deep'):
         r = deep_job(case['fam'], case['kind'], tuple(case['sizes']), case['n'], case['order'])
         vs = [v for v in r['violations'] if v['case'].get('history') == case.get('history')]
